@@ -165,10 +165,20 @@ def inverse_topology(outer, update, topology, inverse=None, multi_updates=True):
                     inner = outer
 
                 for child, child_update in update.items():
+                    child_topology = path
+                    if isinstance(child_update, dict):
+                        # variables the sub-topology does not mention
+                        # are wired to the child itself, as for any
+                        # other '_path' dictionary
+                        child_topology = dict(path)
+                        for update_key in child_update.keys():
+                            if update_key not in child_topology \
+                                    and '*' not in child_topology:
+                                child_topology[update_key] = (update_key,)
                     inverse = inverse_topology(
                         inner + (child,),
                         update[child],
-                        path,
+                        child_topology,
                         inverse,
                         multi_updates)
             else:
